@@ -244,6 +244,73 @@ macro_rules! seq_macro_consts {
     };
 }
 
+macro_rules! with_named {
+    ($x:expr, $y:expr, $c:ident, $body:expr) => {
+        match ($x, $y) {
+            (0, 0) => { let $c = ConstCode::<{ code_consts::UNARY }>; $body }
+            (1, 0) => { let $c = ConstCode::<{ code_consts::GAMMA }>; $body }
+            (2, 0) => { let $c = ConstCode::<{ code_consts::DELTA }>; $body }
+            (3, 0) => { let $c = ConstCode::<{ code_consts::OMEGA }>; $body }
+            (4, 0) => { let $c = ConstCode::<{ code_consts::VBYTE_LE }>; $body }
+            (5, 0) => { let $c = ConstCode::<{ code_consts::VBYTE_BE }>; $body }
+            (6, 1) => { let $c = ConstCode::<{ code_consts::ZETA1 }>; $body }
+            (6, 2) => { let $c = ConstCode::<{ code_consts::ZETA2 }>; $body }
+            (6, 3) => { let $c = ConstCode::<{ code_consts::ZETA3 }>; $body }
+            (6, 4) => { let $c = ConstCode::<{ code_consts::ZETA4 }>; $body }
+            (6, 5) => { let $c = ConstCode::<{ code_consts::ZETA5 }>; $body }
+            (6, 6) => { let $c = ConstCode::<{ code_consts::ZETA6 }>; $body }
+            (6, 7) => { let $c = ConstCode::<{ code_consts::ZETA7 }>; $body }
+            (6, 8) => { let $c = ConstCode::<{ code_consts::ZETA8 }>; $body }
+            (6, 9) => { let $c = ConstCode::<{ code_consts::ZETA9 }>; $body }
+            (6, 10) => { let $c = ConstCode::<{ code_consts::ZETA10 }>; $body }
+            (10, 0) => { let $c = ConstCode::<{ code_consts::RICE0 }>; $body }
+            (10, 1) => { let $c = ConstCode::<{ code_consts::RICE1 }>; $body }
+            (10, 2) => { let $c = ConstCode::<{ code_consts::RICE2 }>; $body }
+            (10, 3) => { let $c = ConstCode::<{ code_consts::RICE3 }>; $body }
+            (10, 4) => { let $c = ConstCode::<{ code_consts::RICE4 }>; $body }
+            (10, 5) => { let $c = ConstCode::<{ code_consts::RICE5 }>; $body }
+            (10, 6) => { let $c = ConstCode::<{ code_consts::RICE6 }>; $body }
+            (10, 7) => { let $c = ConstCode::<{ code_consts::RICE7 }>; $body }
+            (10, 8) => { let $c = ConstCode::<{ code_consts::RICE8 }>; $body }
+            (10, 9) => { let $c = ConstCode::<{ code_consts::RICE9 }>; $body }
+            (10, 10) => { let $c = ConstCode::<{ code_consts::RICE10 }>; $body }
+            (7, 0) => { let $c = ConstCode::<{ code_consts::PI0 }>; $body }
+            (7, 1) => { let $c = ConstCode::<{ code_consts::PI1 }>; $body }
+            (7, 2) => { let $c = ConstCode::<{ code_consts::PI2 }>; $body }
+            (7, 3) => { let $c = ConstCode::<{ code_consts::PI3 }>; $body }
+            (7, 4) => { let $c = ConstCode::<{ code_consts::PI4 }>; $body }
+            (7, 5) => { let $c = ConstCode::<{ code_consts::PI5 }>; $body }
+            (7, 6) => { let $c = ConstCode::<{ code_consts::PI6 }>; $body }
+            (7, 7) => { let $c = ConstCode::<{ code_consts::PI7 }>; $body }
+            (7, 8) => { let $c = ConstCode::<{ code_consts::PI8 }>; $body }
+            (7, 9) => { let $c = ConstCode::<{ code_consts::PI9 }>; $body }
+            (7, 10) => { let $c = ConstCode::<{ code_consts::PI10 }>; $body }
+            (8, 1) => { let $c = ConstCode::<{ code_consts::GOLOMB1 }>; $body }
+            (8, 2) => { let $c = ConstCode::<{ code_consts::GOLOMB2 }>; $body }
+            (8, 3) => { let $c = ConstCode::<{ code_consts::GOLOMB3 }>; $body }
+            (8, 4) => { let $c = ConstCode::<{ code_consts::GOLOMB4 }>; $body }
+            (8, 5) => { let $c = ConstCode::<{ code_consts::GOLOMB5 }>; $body }
+            (8, 6) => { let $c = ConstCode::<{ code_consts::GOLOMB6 }>; $body }
+            (8, 7) => { let $c = ConstCode::<{ code_consts::GOLOMB7 }>; $body }
+            (8, 8) => { let $c = ConstCode::<{ code_consts::GOLOMB8 }>; $body }
+            (8, 9) => { let $c = ConstCode::<{ code_consts::GOLOMB9 }>; $body }
+            (8, 10) => { let $c = ConstCode::<{ code_consts::GOLOMB10 }>; $body }
+            (9, 0) => { let $c = ConstCode::<{ code_consts::EXP_GOLOMB0 }>; $body }
+            (9, 1) => { let $c = ConstCode::<{ code_consts::EXP_GOLOMB1 }>; $body }
+            (9, 2) => { let $c = ConstCode::<{ code_consts::EXP_GOLOMB2 }>; $body }
+            (9, 3) => { let $c = ConstCode::<{ code_consts::EXP_GOLOMB3 }>; $body }
+            (9, 4) => { let $c = ConstCode::<{ code_consts::EXP_GOLOMB4 }>; $body }
+            (9, 5) => { let $c = ConstCode::<{ code_consts::EXP_GOLOMB5 }>; $body }
+            (9, 6) => { let $c = ConstCode::<{ code_consts::EXP_GOLOMB6 }>; $body }
+            (9, 7) => { let $c = ConstCode::<{ code_consts::EXP_GOLOMB7 }>; $body }
+            (9, 8) => { let $c = ConstCode::<{ code_consts::EXP_GOLOMB8 }>; $body }
+            (9, 9) => { let $c = ConstCode::<{ code_consts::EXP_GOLOMB9 }>; $body }
+            (9, 10) => { let $c = ConstCode::<{ code_consts::EXP_GOLOMB10 }>; $body }
+            _ => return vec![1],
+        }
+    };
+}
+
 struct Fact<'a>(&'a [u64]);
 macro_rules! fact_impl {
     ($E:ty) => {
@@ -283,6 +350,7 @@ fn $name(op: &Group) -> Group {
                     <CodesStatsWrapper<Codes> as DynamicCodeWrite>::write(&sw, &mut w, v).unwrap()
                 }
                 5 => direct_write::<E>(&mut w, &code, v),
+                6 => with_named!(x, y, c, c.write(&mut w, v).unwrap()),
                 _ => panic!("no write dispatcher of this kind"),
             };
             BitWrite::flush(&mut w).unwrap();
@@ -339,6 +407,7 @@ fn $name(op: &Group) -> Group {
                     let sw = CodesStatsWrapper::<Codes>::new(code);
                     <CodesStatsWrapper<Codes> as DynamicCodeRead>::read(&sw, &mut r).unwrap()
                 }
+                6 => with_named!(x, y, c, c.read(&mut r).unwrap()),
                 _ => panic!("bad dispatcher kind"),
             };
             let pos = r.bit_pos().unwrap();
@@ -353,6 +422,7 @@ fn $name(op: &Group) -> Group {
                     Err(_) => return vec![1],
                 },
                 5 => direct_len(&code, v),
+                6 => with_named!(x, y, c, c.len(v)),
                 _ => panic!("no len dispatcher of this kind"),
             };
             vec![ST_OK, l as u128]
